@@ -151,6 +151,35 @@ def h_apply_symcredit(E, grades_idx):
     return [str(e['ok']) for e in il] + [NOTE in r['overall_message']]
 
 
+def _pct_text(credit):
+    """documented rendering: the credit is rounded to 4 decimals; the note shows it as a percentage with a trailing '.0' dropped"""
+    from decimal import Decimal
+    d = (Decimal(repr(round(credit, 4))) * 100).normalize()
+    txt = format(d, 'f')
+    return txt
+
+
+def h_note_percentage(E, sched):
+    """the percentage in the note equals the (rounded) schedule value actually applied, for every attempt 1..120 of the built-in schedules - checked against
+    the grade itself: the note shows the grade of a fully correct answer as a percentage rounded to one decimal"""
+    from mitxgraders import StringGrader, LinearCredit, GeometricCredit, ReciprocalCredit
+    import re as _re
+    schedule = {'reciprocal': ReciprocalCredit(), 'geometric-0.9': GeometricCredit(factor=0.9), 'geometric-0.75': GeometricCredit(factor=0.75),
+                'linear-20': LinearCredit(decrease_credit_after=1, decrease_credit_steps=20, minimum_credit=0.05)}[sched]
+    g = StringGrader(answers='cat', attempt_based_credit=schedule)
+    lo = E.fork_int('block', 0, 11)
+    for attempt in range(10 * lo + 1, 10 * lo + 11):
+        r = g(None, 'cat', attempt=attempt)
+        m_ = _re.search(r'Maximum credit for attempt #(\d+) is ([0-9.]+)%\.', r['msg'])
+        if r['grade_decimal'] == 1:
+            E.check('note-percentage-is-the-applied-credit', m_ is None)
+        else:
+            E.check('note-percentage-is-the-applied-credit', m_ is not None and int(m_.group(1)) == attempt
+                    and abs(float(m_.group(2)) - r['grade_decimal'] * 100) <= 0.05 + 1e-9 and not m_.group(2).endswith('.0')
+                    and len(m_.group(2).partition('.')[2]) <= 1)       # shown with one decimal, a trailing .0 dropped
+    return 'ok'
+
+
 def h_note_attempt(E, kind):
     """the note names the attempt the credit was computed for: attempts below 1 count as attempt 1 in the note too (author-defined schedule that
     already reduces the first attempt, so that the note appears)"""
@@ -278,6 +307,8 @@ def harnesses(tier):
     add(h_apply_list, 'apply_list', dict(credit=2, n=3, ordered=True), 'symbolic grades in [0,1], attempt in [-2,5]')
     for ci in (1, 2):
         add(h_apply_list, 'apply_list', dict(credit=ci, n=2, ordered=True, debug=True), 'debug log switched on: the note survives next to the log')
+    for sched in ('reciprocal', 'geometric-0.9', 'geometric-0.75', 'linear-20'):
+        add(h_note_percentage, 'note_percentage', dict(schedule=sched), 'attempts 1..120', validate=False)
     for kind in ('single', 'list'):
         add(h_note_attempt, 'note_attempt', dict(kind=kind), 'attempt -3..4, schedule value 0.5 at every attempt, grades in (0,1]')
     for kind in ('single', 'list', 'single-inferred-answer', 'string-inferred-answer', 'attempt-None', 'after-a-call-with-attempt', 'list-after-a-call-with-attempt'):
